@@ -157,8 +157,13 @@ def texts_stage(rep, tier, wd, rng):
         srcs.append(render.render_prog(p))
     srcs = sorted(set(s for s in srcs if all(ord(ch) < 256 for ch in s)))
     cases = [{'id': 'text/%d' % n, 'src': s} for n, s in enumerate(srcs)]
+    # witnesses of known findings (open and fixed) are replayed like any other text
+    wit = [f for f in rep.findings if f['site'] == 'text' and 'text' in f.get('witness', {})]
+    cases += [{'id': 'witness/' + f['id'], 'src': f['witness']['text']} for f in wit]
     recs = core.pool_map(observe_text, cases, chunksize=200)
     verdicts, stats = core.validate('Conform_Text', recs, wd, shard_size=1500)
+    for f in wit:
+        rep.witness(f['id'], f['clause'] in verdicts.get('witness/' + f['id'], {}).get('clauses', []))
     rep.add_validation('text', [dict(r, text=r['src']) for r in recs], verdicts, stats)
     rep.cov['texts'] = len(recs)
     return recs, verdicts
